@@ -108,7 +108,7 @@ class Ctx:
             p = subprocess.run([self.harness, cmd], input=inp, capture_output=True, text=True,
                                timeout=timeout, env=env)
             got = 0
-            for line in p.stdout.splitlines():
+            for line in p.stdout.split("\n"):      # not splitlines(): U+0085 / U+2028 inside JSON strings are not line ends
                 if not line.strip():
                     continue
                 r = json.loads(line)
@@ -122,7 +122,8 @@ class Ctx:
                 pending = pending[got:]
                 hangs += 1
                 continue
-            if got < len(pending) and p.returncode != 0 and got >= 0 and p.returncode not in (2,):
+            fatal = "fatal error:" in p.stderr or "goroutine stack exceeds" in p.stderr     # Go runtime abort (exit status 2)
+            if got < len(pending) and p.returncode != 0 and got >= 0 and (p.returncode not in (2,) or fatal):
                 # crashed hard (fatal error: stack overflow, concurrent map writes, ...): the case
                 # after the last answered one is the culprit
                 bad = pending[got]
@@ -233,7 +234,7 @@ class Ctx:
                                capture_output=True, text=True, timeout=timeout)
             if p.returncode != 0:
                 raise Infra("reference parser failed: %s" % p.stderr[-500:])
-            return [json.loads(l) for l in p.stdout.splitlines() if l.strip()]
+            return [json.loads(l) for l in p.stdout.split("\n") if l.strip()]
         with concurrent.futures.ThreadPoolExecutor(max_workers=procs) as ex:
             for rs in ex.map(one, [items[k::procs] for k in range(procs)]):
                 for r in rs:
@@ -258,7 +259,7 @@ class Ctx:
             p = subprocess.run(["node", os.path.join(VERIF, "engine", "run.js")], input=inp, capture_output=True, text=True, timeout=timeout)
             if p.returncode != 0:
                 raise Infra("engine failed: %s" % p.stderr[-500:])
-            return [json.loads(l) for l in p.stdout.splitlines() if l.strip()]
+            return [json.loads(l) for l in p.stdout.split("\n") if l.strip()]
         out = {}
         with concurrent.futures.ThreadPoolExecutor(max_workers=procs) as ex:
             for rs in ex.map(one, [items[k::procs] for k in range(procs)]):
@@ -513,7 +514,8 @@ def match_known(prop, clause, case, detail):
         m = kf.get("match", {})
         if m.get("clause") not in (None, clause):
             continue
-        if h in m.get("case_sha1", []) or ("input" in m and m["input"] == case.get("input")):
+        if h in m.get("case_sha1", []) or ("input" in m and m["input"] == case.get("input")) \
+                or ("gen" in m and m["gen"] == case.get("gen")):
             return kf
     return None
 
@@ -527,5 +529,13 @@ def main_guard(fn):
         os._exit(2)
     except subprocess.TimeoutExpired as e:
         print("INFRA: timeout %s" % e)
+        sys.stdout.flush()
+        os._exit(2)
+    except BaseException as e:        # a bug of the machinery is never a verdict
+        if isinstance(e, SystemExit):
+            raise
+        import traceback
+        traceback.print_exc()
+        print("INFRA: internal error of the checking machinery: %r" % (e,))
         sys.stdout.flush()
         os._exit(2)
